@@ -223,6 +223,25 @@ class Machine:
 			outs.append((g, 'fall', None, en))
 		return outs
 
+	def scoped(self, stmts: list, env: dict, types: dict, guard):
+		"""a nested block: in C++ a name declared inside it shadows the outer one and dies with the block; Python has no block scope"""
+		outs = self.block(stmts, env, types if self.lang == 'py' else dict(types), guard)
+		if self.lang != 'cpp':
+			return outs
+		declared = {st[2] for st in stmts if st[0] == 'decl'}
+		if not declared:
+			return outs
+		fixed = []
+		for cond, kind, v, e2 in outs:
+			e3 = dict(e2)
+			for name in declared:
+				if name in env:
+					e3[name] = env[name]
+				else:
+					e3.pop(name, None)
+			fixed.append((cond, kind, v, e3))
+		return fixed
+
 	def join(self, states: list) -> list:
 		"""merge environments of converging paths (keeps the number of live states at one)"""
 		if len(states) <= 1:
@@ -268,8 +287,8 @@ class Machine:
 		if k == 'if':
 			_, c, then, orelse = st
 			cv = to_bool(self.expr(c, env, guard))
-			outs = self.block(then, env, types, z3.And(guard, cv))
-			outs += self.block(orelse, env, types, z3.And(guard, z3.Not(cv)))
+			outs = self.scoped(then, env, types, z3.And(guard, cv))
+			outs += self.scoped(orelse, env, types, z3.And(guard, z3.Not(cv)))
 			return outs
 		if k == 'while':
 			return self.loop(st[1], st[2], None, env, types, guard)
@@ -279,8 +298,21 @@ class Machine:
 			sv = self.expr(start, env, guard)
 			if self.lang == 'cpp':
 				types[name] = 'int'
+			outer = env.get(name)
 			env[name] = ('int', to_int(sv))
-			return self.loop(cond, body, step, env, types, guard)
+			outs = self.loop(cond, body, step, env, types, guard)
+			if self.lang == 'cpp':
+				# `for (auto i = ...)`: the loop variable lives in the loop only
+				fixed = []
+				for c2, kind, v, e2 in outs:
+					e3 = dict(e2)
+					if outer is not None:
+						e3[name] = outer
+					else:
+						e3.pop(name, None)
+					fixed.append((c2, kind, v, e3))
+				outs = fixed
+			return outs
 		if k == 'return':
 			v = self.expr(st[1], env, guard) if st[1] is not None else None
 			return [(guard, 'return', v, env)]
@@ -303,7 +335,7 @@ class Machine:
 			for g, en in live:
 				cv = to_bool(self.expr(cond, en, g))
 				outs.append((z3.And(g, z3.Not(cv)), 'fall', None, en))
-				for c2, kind, v, e2 in self.block(body, en, types, z3.And(g, cv)):
+				for c2, kind, v, e2 in self.scoped(body, en, types, z3.And(g, cv)):
 					if kind in ('fall', 'continue'):
 						if step is not None:
 							(c3, _, _, e3), = self.stmt(step, e2, types, c2)
